@@ -23,7 +23,9 @@ RULE = ("Engine B walk of two input tries.  shapes: a state is a sequence of lin
         "string cut at \\n and run through tokenizer and parser.  evaluations = text equalities evaluated (token "
         "concatenation, dump).  A document is non-trivial when it has two or more lines of at least two different "
         "line classes (blank / whitespace-only / comment / indented / with colon / other), i.e. an adjacency of "
-        "classes is exercised.  Outcome classes = sequence of top-level parts of the parsed file (P paragraph, "
+        "classes is exercised.  sweep: a state is one (code point, template) document, a transition puts the code point "
+        "into the template, a trace is that document in one termination mode (counted apart from shapes / chars, with "
+        "which a few sweep documents coincide).  Outcome classes = sequence of top-level parts of the parsed file (P paragraph, "
         "W whitespace, C comment, E error) or the exception class; extra = adjacent token-kind pairs seen.")
 BUDGET = {"quick": 240, "thorough": 3000}
 
@@ -68,7 +70,11 @@ def bounds(tier):
             "termination_modes": ["every line ends in \\n", "every line but the last (last line non-empty)",
                                   "no line (2+ lines)"],
             "chars": "all strings of length 0..%d over {letter, ':', ' ', '#', '\\n', '\\t'}, cut at \\n" % m,
-            "shape_alphabet": shapes(0), "core_shapes": [shapes(0)[i] for i in CORE_IDX]}
+            "shape_alphabet": shapes(0), "core_shapes": [shapes(0)[i] for i in CORE_IDX],
+            "sweep": "one foreign character at a time: each of the %d code points of sweep_code_points() (U+0000..U+024F "
+                     "without \\n, every other Unicode white space / line separator, other decimal digits, look-alikes, "
+                     "astral and private-use samples) as c in the %d documents %r, every termination mode"
+                     % (len(sweep_code_points()), len(SWEEP_TEMPLATES), [[l.replace("%", "<c>") for l in t] for t in SWEEP_TEMPLATES])}
 
 
 def assumptions():
@@ -79,8 +85,62 @@ def assumptions():
         "no DESIGN shape puts whitespace at the end of a continuation line, so the continuation branch's "
         "line[1:-1] slicing was only reached with trailing whitespace at character level, length 7",
         "the seed rotates letters, the non-ASCII character and the non-space \\s character; shapes are the same",
-        "characters outside the representatives (full Unicode) are not explored",
+        "characters outside the representatives are explored one at a time only (the sweep): a single foreign code point "
+        "in otherwise plain one- and two-line documents, never two foreign characters together nor one inside the longer "
+        "shape sequences",
+        "sweep: the only code point left out is \\n (the statement: no newline inside a line); \\r, \\x0b, \\x0c, "
+        "\\x1c-\\x1e, \\x85, U+2028 and U+2029 are ordinary text here - lines are given to the parser as a list and the "
+        "module never cuts with str.splitlines",
     ]
+
+
+# ------------------------------------------------------------------------------------------------ sweep
+
+# '%' marks where the swept character goes; one document per template
+SWEEP_TEMPLATES = [["%"], ["A%: b"], ["A: %"], ["A: b%"], ["%A: b"], [" %"], ["#%"], ["A: b", "%"], ["A: b", " %"]]
+SWEEP_CHUNK = 48
+
+
+def sweep_code_points():
+    cps = [cp for cp in range(0, 0x250) if cp != 0x0A]
+    # every other character str.isspace() / \\s knows, and the other two str.splitlines separators
+    cps += [0x1680] + list(range(0x2000, 0x200B)) + [0x2028, 0x2029, 0x202F, 0x205F, 0x3000]
+    for base in (0x660, 0x966, 0xFF10):                               # other decimal digits
+        cps += [base, base + 9]
+    cps += [0x391, 0x410, 0x4E2D, 0xFF21, 0xFF1A, 0xFF03, 0x200B, 0x200D, 0xFEFF, 0xE000, 0xFFFD, 0xFFFF, 0x1D7CE, 0x1F600, 0x10FFFF]
+    return cps
+
+
+def sweep_docs(cp):
+    """-> the documents (lists of line bodies, no terminators) for one code point, without repetitions"""
+    c = chr(cp)
+    out = []
+    for t in SWEEP_TEMPLATES:
+        d = [l.replace("%", c) for l in t]
+        if d not in out:
+            out.append(d)
+    return out
+
+
+def unit_sweep(part, lo, hi):
+    cps = sweep_code_points()[lo:hi]
+    for cp in cps:
+        for seq in sweep_docs(cp):
+            part.states += 1
+            part.transitions += 1
+            for mode in MODES:
+                if mode == "no-nl" and len(seq) < 2:
+                    continue            # a single unterminated line is the open-last case
+                lines = lines_for(seq, mode)
+                case = {"space": "sweep", "mode": mode, "lines": lines}
+                part.traces += 1
+                if _nontrivial(lines):
+                    part.nontrivial += 1
+                for sig, exp, obs in execute(lines, part):
+                    part.violation(sig, case, exp, obs, rank=100)
+    part.max_depth = 2
+    part.sample({"space": "sweep", "mode": "nl", "lines": lines_for(sweep_docs(cps[0])[1], "nl")})
+    return part
 
 
 # ------------------------------------------------------------------------------------------------ one case
@@ -253,11 +313,16 @@ def units(tier, seed):
         plen = max(0, L - 5)
         for pre in itertools.product(range(6), repeat=plen):
             out.append(("chars", "", L, pre))
+    ncp = len(sweep_code_points())
+    for lo in range(0, ncp, SWEEP_CHUNK):
+        out.append(("sweep", "", lo, min(lo + SWEEP_CHUNK, ncp)))
     return out
 
 
 def unit_cost(u, tier):
     space, which, L, pre = u
+    if space == "sweep":
+        return (pre - L) * len(SWEEP_TEMPLATES) * 3 * 2
     if space == "shapes":
         base = len(shapes(0)) if which == "full" else len(CORE_IDX)
         return 3 * L * base ** (L - len(pre))
@@ -267,6 +332,8 @@ def unit_cost(u, tier):
 def run_unit(u, tier, seed):
     part = core.Part()
     space, which, L, pre = u
+    if space == "sweep":
+        return unit_sweep(part, L, pre)
     part.max_depth = L
     if space == "shapes":
         sh = shapes(seed)
